@@ -502,6 +502,7 @@ def conform_tlc(chk, prefix, runs, batch=150000):
     """B2, algorithm level: runs through specs/<prefix>Trace.tla.  Returns {run index: event index the
     model could not follow}."""
     bad = {}
+    extra_bad = 0
     i = 0
     part = 0
     while i < len(runs):
@@ -531,8 +532,9 @@ def conform_tlc(chk, prefix, runs, batch=150000):
         for b in j[0]["bad"]:
             ri = order[b["run"] - 1]
             bad[ri] = b["line"] - start[ri] - 1
+        extra_bad += j[0]["nbad"] - len(j[0]["bad"])
         part += 1
-    return bad
+    return bad, extra_bad
 
 
 def replay_paths(chk, bindir, bind, g, paths, progs, tag):
@@ -829,12 +831,13 @@ class LockCheck:
         t0 = time.time()
         # (the tour replays were already compared step by step by B1: the quick tier leaves them out here)
         sel = [r for r in pending if tier != "quick" or not r["source"].startswith("B1 ")]
-        conf_bad = conform_tlc(chk, self.prefix, sel)
-        chk.extra["algorithm_level_trace_validation"] = {"executions": len(sel), "accepted": len(sel) - len(conf_bad),
-                                                         "not_followed_by_model": len(conf_bad),
+        conf_bad, more = conform_tlc(chk, self.prefix, sel)
+        nbad = len(conf_bad) + more
+        chk.extra["algorithm_level_trace_validation"] = {"executions": len(sel), "accepted": len(sel) - nbad,
+                                                         "not_followed_by_model": nbad,
                                                          "scope": "explored executions (DFS, coverage-guided, random)" if tier == "quick" else "all recorded executions"}
         core.log("%sTrace: %d of %d executions are behaviours of %s.tla (%.1fs)" % (
-            self.prefix, len(sel) - len(conf_bad), len(sel), self.prefix, time.time() - t0))
+            self.prefix, len(sel) - nbad, len(sel), self.prefix, time.time() - t0))
         for ri, where in sorted(conf_bad.items())[:3]:
             r = sel[ri]
             drift.append({"source": r.get("source"), "progs": r["reset"]["progs"], "event_index": where,
